@@ -51,7 +51,7 @@ def sig_of(tr, idx, status, steps, tail):
     return "call=%s;rc=%s;failed=%s;v=%s;status=%s" % (ev.get("e"), ev.get("rc"), failed, ev.get("a", {}).get("v"), status)
 
 
-def run(pid, tier, seed, execs, mc, rule, extra=None, assumptions=None):
+def run(pid, tier, seed, execs, mc, rule, extra=None, assumptions=None, sink=None):
     bld = vlib.build("dbg")
     violations, nacc, states, nrej = [], 0, 0, 0
     bynp = {}
@@ -63,6 +63,8 @@ def run(pid, tier, seed, execs, mc, rule, extra=None, assumptions=None):
         nacc += len(acc)
         states += st
         nrej += len(rej)
+        if sink is not None:
+            sink.update({x: r.get("events") for x, r in res.items()})
         byx = {e["x"]: e for e in lst}
         for x, idx, tail, r2 in vlib.confirm(bld, lst, rej, MODULE, CFG, **kw):
             tr = res[x]["events"]
